@@ -158,6 +158,7 @@ def parseOp (t : String) : Option PoolMux.Op :=
   else if t.startsWith "IT" then (numAfter t 2).map (fun n => .checkAndInit (some n) .timeout)
   else if t.startsWith "I" then (numAfter t 1).map (fun n => .checkAndInit (some n) .ok)
   else if t.startsWith "N" then (numAfter t 1).map .newStream
+  else if t.startsWith "O" then (numAfter t 1).map .newStreamOneway
   else if t.startsWith "R" then (numAfter t 1).map .response
   else if t.startsWith "X" then (numAfter t 1).map .garbage
   else if t.startsWith "L" then (numAfter t 1).map .localReset
@@ -174,19 +175,19 @@ def parseSlot (t : String) : Option PoolMux.OSlot :=
     if r == "f" then some ⟨true, l == 'C', none⟩ else r.toNat?.map (fun c => ⟨true, l == 'C', some c⟩)
   | [] => none
 
-/-- `res;b<slots>;d<shutdown>;q<cur>;n<conns>;s<streams>` -/
+/-- `res;b<slots>;d<shutdown>;q<cur>;a<host request_active>:<cluster request_active>;n<conns>;s<streams>` -/
 def parseObs (t : String) : Option (String × PoolMux.Obs) :=
   match t.splitOn ";" with
-  | [res, bb, dd, qq, nn, ss] =>
-    if !(bb.startsWith "b" && dd.startsWith "d" && qq.startsWith "q" && nn.startsWith "n" && ss.startsWith "s") then none else
+  | [res, bb, dd, qq, aa, nn, ss] =>
+    if !(bb.startsWith "b" && dd.startsWith "d" && qq.startsWith "q" && aa.startsWith "a" && nn.startsWith "n" && ss.startsWith "s") then none else
     let slotToks := ((bb.drop 1).toString.splitOn ",").filter (· ≠ "")
     let strToks := ((ss.drop 1).toString.splitOn ",").filter (· ≠ "")
     let conns := (nn.drop 1).toString.toList
     if conns.any (fun ch => ch != 'o' && ch != 'c') then none else
-    match parseInt? (qq.drop 1).toString, slotToks.mapM parseSlot, strToks.mapM parseStream with
-    | some q, some slots, some streams =>
-      some (res, { slots := slots, reqCur := q, conns := conns.map (· == 'o'), streams := streams })
-    | _, _, _ => none
+    match parseInt? (qq.drop 1).toString, ((aa.drop 1).toString.splitOn ":").mapM parseInt?, slotToks.mapM parseSlot, strToks.mapM parseStream with
+    | some q, some [ah, ac], some slots, some streams =>
+      some (res, { slots := slots, reqCur := q, actHost := ah, actCluster := ac, conns := conns.map (· == 'o'), streams := streams })
+    | _, _, _, _ => none
   | _ => none
 
 def okConn (res : String) : Option Nat := if res.startsWith "ok" then (res.drop 2).toString.toNat? else none
@@ -203,6 +204,8 @@ def specAlong (maxReq : Nat) : Nat → PoolMux.Obs → List PoolMux.Op → List 
       let stepOk := match op with
         | .newStream k => (res.startsWith "ok" || res == "ovf" || res == "cf") &&
             PoolMux.newStreamSpec maxReq ext (if n > 1 then k else 0) before (okConn res) o
+        | .newStreamOneway k => (res.startsWith "ok" || res == "ovf" || res == "cf") &&
+            PoolMux.onewaySpec maxReq ext (if n > 1 then k else 0) before (okConn res) o
         | .checkAndInit slot _ => (res == "t" || res == "f") && (res != "t" || o == before) &&
             (match slot with
               | some k => match before.slots[if n > 1 then k else 0]? with
@@ -212,7 +215,8 @@ def specAlong (maxReq : Nat) : Nat → PoolMux.Obs → List PoolMux.Op → List 
         | _ => res == "-"
       stepOk && PoolMux.obsSpec maxReq ext' o && specAlong maxReq ext' o ops ts
 
-def emptyObs (n : Nat) : PoolMux.Obs := { slots := List.replicate n ⟨false, false, none⟩, reqCur := 0, conns := [], streams := [] }
+def emptyObs (n : Nat) : PoolMux.Obs :=
+  { slots := List.replicate n ⟨false, false, none⟩, reqCur := 0, actHost := 0, actCluster := 0, conns := [], streams := [] }
 
 def mux (mc mr ops : String) (impl : List String) : String :=
   match mc.toNat?, mr.toNat?, (ops.splitOn ",").mapM parseOp with
